@@ -1,7 +1,8 @@
 (* C04 — Combinational settling is complete and independent of construction order.
    Statements only; proofs in Proofs/C04/{SortLemmas,Acyclic,Settle,Refute,Chain,Main}.v.
-   Sorter model: Model/Sort.v (step-for-step Simulator.topologicalSort / findFirstDependentPosition; tied to the
-   real Simulator.propagatables element for element on every run).  Evaluation: Model/SimKernel.v propagateAll. *)
+   Sorter model: Model/Sort.v (step-for-step Simulator.topologicalSort / findFirstDependentPosition as of /repo 04873f4,
+   i.e. with the self-feed check; tied to the real Simulator.propagatables element for element and to the kind of
+   exception on every run).  Evaluation: Model/SimKernel.v propagateAll. *)
 From V Require Import Base.PyInt Gen.WireOps Model.SimKernel Model.Sort Spec.C04.
 From V Require Import Proofs.C04.SortLemmas Proofs.C04.Settle Proofs.C04.Refute Proofs.C04.Main.
 From Coq Require Import Permutation.
@@ -9,19 +10,20 @@ Local Open Scope nat_scope.
 
 (* ---------------------------------------------------------------- the sorter *)
 
-(* whenever the sorter returns (for ANY graph, cyclic or not, any pass limit K, any instantiation order l), the
-   result is a permutation of the leaves and every dependent of l'[i] sits at a position >= i; > i if no leaf
-   feeds itself.  `closed` is the guard the real code needs (propagatables.index would raise otherwise). *)
+(* whenever the sorter returns a list (for ANY graph, any pass limit K, any instantiation order l), it is a
+   permutation of the leaves and every dependent of l'[i] sits at a position > i (strictly: the self-feed check makes
+   the old ">= i unless nobody feeds itself" unconditional).  `closed` is the guard the real code needs
+   (propagatables.index would raise ValueError otherwise). *)
 Theorem C04_sort_sound : forall succ K l l',
-  NoDup l -> closed succ l -> sort_fuel succ K l = Some l' ->
-  Permutation l l' /\ topo succ l' /\ ((forall x, In x l -> ~ self_loop succ x) -> strict_topo succ l').
+  NoDup l -> closed succ l -> sort_fuel succ K l = Sorted l' ->
+  Permutation l l' /\ strict_topo succ l'.
 Proof. exact sort_sound_thm. Qed.
 
 (* on every acyclic graph (acyclicity = a ranking d exists) a pass limit exists that suffices for EVERY
-   instantiation order of the same leaves *)
+   instantiation order of the same leaves; neither error is raised *)
 Theorem C04_sort_terminates : forall succ d l,
-  closed succ l -> ranking succ l d ->
-  exists K0, forall l0, Permutation l l0 -> forall K, K0 <= K -> exists l', sort_fuel succ K l0 = Some l'.
+  NoDup l -> closed succ l -> ranking succ l d ->
+  exists K0, forall l0, Permutation l l0 -> forall K, K0 <= K -> exists l', sort_fuel succ K l0 = Sorted l'.
 Proof. exact sort_terminates_thm. Qed.
 
 (* "a ranking exists" is exactly "no leaf reaches itself" on a finite closed leaf set ... *)
@@ -29,11 +31,11 @@ Theorem C04_acyclic_iff_ranking : forall succ l, closed succ l ->
   ((forall v, In v l -> ~ path succ v v) <-> exists d, ranking succ l d).
 Proof. exact acyclic_iff_ranking_thm. Qed.
 
-(* ... so the sorter terminates on EVERY netlist without a combinational cycle (self-loops are cycles here), for every
-   instantiation order, given enough passes *)
+(* ... so the sorter terminates on EVERY netlist without a combinational cycle, for every instantiation order,
+   given enough passes *)
 Theorem C04_sort_terminates_acyclic : forall succ l,
-  closed succ l -> (forall v, In v l -> ~ path succ v v) ->
-  exists K0, forall l0, Permutation l l0 -> forall K, K0 <= K -> exists l', sort_fuel succ K l0 = Some l'.
+  NoDup l -> closed succ l -> (forall v, In v l -> ~ path succ v v) ->
+  exists K0, forall l0, Permutation l l0 -> forall K, K0 <= K -> exists l', sort_fuel succ K l0 = Sorted l'.
 Proof. exact sort_terminates_acyclic_thm. Qed.
 
 (* each swap the code performs strictly increases  sum_i i * d(l[i])  (the termination measure) *)
@@ -42,10 +44,33 @@ Theorem C04_swap_increases_measure : forall succ d l i p,
   first_dep succ l (nth i l 0) = Some p -> p < i -> Msum d 0 l < Msum d 0 (swap l p i).
 Proof. exact swap_increases_measure_thm. Qed.
 
-(* a combinational cycle through two distinct leaves is refused whatever the pass limit and the order *)
-Theorem C04_cycle_rejected : forall succ K l,
-  NoDup l -> closed succ l -> has_cycle2 succ l -> sort_fuel succ K l = None.
+(* REJECTION, complete: a netlist with ANY combinational cycle (some leaf reaches itself through >= 1 dependency edge:
+   self-feeding leaves and cycles through several leaves alike) is never returned as sorted, whatever the pass limit
+   and the instantiation order *)
+Theorem C04_cyclic_rejected : forall succ K l l',
+  NoDup l -> closed succ l -> (exists v, In v l /\ path succ v v) -> sort_fuel succ K l <> Sorted l'.
+Proof. exact cyclic_rejected_thm. Qed.
+
+(* the two special cases by name: a cycle through two distinct leaves ... *)
+Theorem C04_cycle_rejected : forall succ K l l',
+  NoDup l -> closed succ l -> has_cycle2 succ l -> sort_fuel succ K l <> Sorted l'.
 Proof. exact cycle_rejected_thm. Qed.
+
+(* ... and a leaf feeding itself (was accepted before /repo 04873f4; finding C04-selfloop, now fixed) *)
+Theorem C04_selfloop_rejected : forall succ K l l' x,
+  NoDup l -> closed succ l -> In x l -> self_loop succ x -> sort_fuel succ K l <> Sorted l'.
+Proof. exact selfloop_rejected_thm. Qed.
+
+(* the errors are truthful: the loop error names a leaf that really feeds itself; hence a cycle through >= 2 leaves
+   in a netlist where nobody feeds itself is always refused by the pass limit *)
+Theorem C04_loop_error_sound : forall succ K l x,
+  NoDup l -> closed succ l -> sort_fuel succ K l = LoopError x -> In x l /\ self_loop succ x.
+Proof. exact loop_error_sound_thm. Qed.
+
+Theorem C04_cycle2_limit_error : forall succ K l,
+  NoDup l -> closed succ l -> has_cycle2 succ l -> (forall x, In x l -> ~ self_loop succ x) ->
+  sort_fuel succ K l = LimitError.
+Proof. exact cycle2_limit_error_thm. Qed.
 
 (* ---------------------------------------------------------------- settling *)
 
@@ -79,12 +104,12 @@ Theorem C04_order_independent : forall (St : Type) (d1 d2 : design St) (vs : lis
 Proof. exact order_independent_thm. Qed.
 
 (* sorter + evaluation end to end: the leaves instantiated in ANY order (cs), the graph the sorter sees represents
-   their wire dependencies, nobody feeds itself: whatever list the sorter returns schedules the same netlist and
-   propagateAll over it settles every wire *)
+   their wire dependencies: whatever list the sorter returns schedules the same netlist and propagateAll over it
+   settles every wire (no "nobody feeds itself" hypothesis any more: such netlists are not returned) *)
 Theorem C04_sorted_netlist_settles : forall (St : Type) (d : design St) succ K l (vs : list Z),
-  represents (combs d) succ -> (forall i, ~ self_loop succ i) -> single_driver (combs d) ->
+  represents (combs d) succ -> single_driver (combs d) ->
   closed succ (seq 0 (length (combs d))) ->
-  sort_fuel succ K (seq 0 (length (combs d))) = Some l ->
+  sort_fuel succ K (seq 0 (length (combs d))) = Sorted l ->
   let d' := with_combs d (reorder (combs d) l) in
   same_netlist d d' /\ ordered (combs d') /\ settled d' (propagateAll d' vs).
 Proof. exact sorted_netlist_settles_thm. Qed.
@@ -94,49 +119,45 @@ Proof. exact sorted_netlist_settles_thm. Qed.
 Theorem C04_construction_order_independent : forall (St : Type) (d1 d2 : design St) succ1 succ2 K l1 l2 (vs : list Z),
   same_netlist d1 d2 -> single_driver (combs d1) -> (forall c, In c (combs d1) -> definite c) ->
   represents (combs d1) succ1 -> represents (combs d2) succ2 ->
-  (forall i, ~ self_loop succ1 i) -> (forall i, ~ self_loop succ2 i) ->
-  sort_fuel succ1 K (seq 0 (length (combs d1))) = Some l1 ->
-  sort_fuel succ2 K (seq 0 (length (combs d2))) = Some l2 ->
+  sort_fuel succ1 K (seq 0 (length (combs d1))) = Sorted l1 ->
+  sort_fuel succ2 K (seq 0 (length (combs d2))) = Sorted l2 ->
   propagateAll (with_combs d1 (reorder (combs d1) l1)) vs = propagateAll (with_combs d2 (reorder (combs d2) l2)) vs.
 Proof. exact construction_order_independent_thm. Qed.
 
-(* ---------------------------------------------------------------- refuted clauses (genuine defects, DESIGN.md section 7) *)
+(* ---------------------------------------------------------------- refuted clause (genuine defect, DESIGN.md section 7 #14) *)
 
-(* #13: "a netlist that contains a combinational cycle is refused" is FALSE for a leaf feeding itself: the sorter
-   returns the list as sorted (pos < i is false for pos = i) ... *)
-Theorem C04_selfloop_refuted : exists succ l x,
-  NoDup l /\ closed succ l /\ In x l /\ self_loop succ x /\ sort_fuel succ py4hw_loop_limit l = Some l.
-Proof. exact selfloop_refuted_thm. Qed.
-(* ... and the netlist it then simulates is not at a fixpoint after propagateAll *)
-Theorem C04_selfloop_not_settled_refuted : exists (d : design unit) (vs : list Z),
-  single_driver (combs d) /\ ~ settled d (propagateAll d vs).
-Proof. exact selfloop_not_settled_refuted_thm. Qed.
-
-(* #14: "acyclic netlists are sorted" is FALSE under any pass limit: for EVERY K, the chain of K+1 buffers instantiated
+(* "acyclic netlists are sorted" is FALSE under any pass limit: for EVERY K, the chain of K+1 buffers instantiated
    sink-first is acyclic (ranked), yet refused when K passes are allowed; K+1 passes sort it. *)
 Theorem C04_limit_refuted : forall K,
   let succ := chain_succ (S K) in let l := rev_chain (S K) in
   NoDup l /\ closed succ l /\ ranking succ l (fun x => x) /\
-  sort_fuel succ K l = None /\ sort_fuel succ (S K) l = Some (seq 0 (S K)).
+  sort_fuel succ K l = LimitError /\ sort_fuel succ (S K) l = Sorted (seq 0 (S K)).
 Proof. exact limit_refuted_thm. Qed.
 
 (* in particular at the code's constant: 1001 leaves, limit 1000 *)
-Theorem C04_limit_1000_refuted :
-  let n := S py4hw_loop_limit in
-  ranking (chain_succ n) (rev_chain n) (fun x => x) /\ sort_fuel (chain_succ n) py4hw_loop_limit (rev_chain n) = None.
+Theorem C04_limit_1000_refuted :   let n := S py4hw_loop_limit in
+  ranking (chain_succ n) (rev_chain n) (fun x => x) /\ sort_fuel (chain_succ n) py4hw_loop_limit (rev_chain n) = LimitError.
 Proof. exact limit_1000_refuted_thm. Qed.
 
 (* the number of passes the sorter needs on n leaves instantiated sink-first is exactly n (so no constant limit works;
    the conjectured bound "n passes always suffice" is tight if true) *)
 Theorem C04_pass_count_chain : forall n K, 1 <= n ->
-  sort_fuel (chain_succ n) K (rev_chain n) = if K <? n then None else Some (seq 0 n).
+  sort_fuel (chain_succ n) K (rev_chain n) = if K <? n then LimitError else Sorted (seq 0 n).
 Proof. exact pass_count_chain_thm. Qed.
 
 (* ---------------------------------------------------------------- non-vacuity *)
-Example C04_sort_nonvacuous : sort_fuel ex_succ py4hw_loop_limit [0; 1; 2] = Some [1; 2; 0].
+Example C04_sort_nonvacuous : sort_fuel ex_succ py4hw_loop_limit [0; 1; 2] = Sorted [1; 2; 0].
 Proof. exact ex_sorts. Qed.
 Example C04_cycle_nonvacuous : NoDup [0; 1] /\ closed cyc_succ [0; 1] /\ has_cycle2 cyc_succ [0; 1].
 Proof. exact cyc_has_cycle. Qed.
+(* a self-feeding leaf beside a clean one: refused with the loop error naming it, in both instantiation orders *)
+Example C04_selfloop_nonvacuous : NoDup [0; 1] /\ closed selfloop_succ [0; 1] /\ self_loop selfloop_succ 0 /\
+  sort_fuel selfloop_succ py4hw_loop_limit [0; 1] = LoopError 0 /\
+  sort_fuel selfloop_succ py4hw_loop_limit [1; 0] = LoopError 0.
+Proof. exact selfloop_refused. Qed.
+(* why that refusal matters: an inverter on its own output is not settled by propagateAll (`ordered` must be strict) *)
+Example C04_selfloop_would_not_settle : single_driver (combs inv_loop) /\ ~ settled inv_loop (propagateAll inv_loop [0%Z]).
+Proof. exact selfloop_not_settled. Qed.
 Example C04_terminates_nonvacuous : closed (chain_succ 5) (rev_chain 5) /\ ranking (chain_succ 5) (rev_chain 5) (fun x => x).
 Proof. split; [apply chain_closed | apply chain_ranking]. Qed.
 Example C04_settle_nonvacuous : ordered (combs two_good) /\ single_driver (combs two_good) /\
@@ -145,12 +166,11 @@ Proof. exact two_good_ok. Qed.
 (* the hypothesis `ordered` is needed: the same two leaves in the unsorted order are left unsettled *)
 Example C04_unsorted_unsettled : ~ settled two_bad (propagateAll two_bad [0; 0; 0]%Z).
 Proof. exact two_bad_unsettled. Qed.
-
 (* the hypotheses of the end-to-end theorems hold on a real instance: two leaves instantiated sink-first, the sorter
    swaps them and the reordered list is the settled schedule of C04_settle_nonvacuous *)
 Example C04_end_to_end_nonvacuous : represents (combs two_bad) two_bad_succ /\ (forall i, ~ self_loop two_bad_succ i) /\
   single_driver (combs two_bad) /\
-  sort_fuel two_bad_succ py4hw_loop_limit (seq 0 (length (combs two_bad))) = Some [1; 0] /\
+  sort_fuel two_bad_succ py4hw_loop_limit (seq 0 (length (combs two_bad))) = Sorted [1; 0] /\
   reorder (combs two_bad) [1; 0] = combs two_good.
 Proof. exact two_bad_represents. Qed.
 
@@ -159,15 +179,17 @@ Print Assumptions C04_sort_terminates.
 Print Assumptions C04_acyclic_iff_ranking.
 Print Assumptions C04_sort_terminates_acyclic.
 Print Assumptions C04_swap_increases_measure.
+Print Assumptions C04_cyclic_rejected.
 Print Assumptions C04_cycle_rejected.
+Print Assumptions C04_selfloop_rejected.
+Print Assumptions C04_loop_error_sound.
+Print Assumptions C04_cycle2_limit_error.
 Print Assumptions C04_settle_fixpoint.
 Print Assumptions C04_settled_after_init_and_clk.
 Print Assumptions C04_fixpoint_unique.
 Print Assumptions C04_order_independent.
 Print Assumptions C04_sorted_netlist_settles.
 Print Assumptions C04_construction_order_independent.
-Print Assumptions C04_selfloop_refuted.
-Print Assumptions C04_selfloop_not_settled_refuted.
 Print Assumptions C04_limit_refuted.
 Print Assumptions C04_limit_1000_refuted.
 Print Assumptions C04_pass_count_chain.
